@@ -35,6 +35,9 @@ pub enum Inject {
     NonNumeric,
     MissingColumn,
     Negative,
+    /// a coordinate of 2^32 or more (2^64 or more for one shape) that equals the valid coordinate modulo 2^32 / 2^64:
+    /// a parser that wraps instead of refusing sees a perfectly valid line
+    BeyondU32,
     Blank,
     Empty,
     /// a complete, otherwise valid record behind leading white space (the chromosome column is then
@@ -243,7 +246,7 @@ fn build(case: &Case) -> Built {
             }
         }
         Inject::UnknownChrom | Inject::ChromOrder | Inject::Empty => {}
-        Inject::NonNumeric | Inject::MissingColumn | Inject::Negative | Inject::Blank | Inject::LeadingSpace | Inject::LeadingTab => {
+        Inject::NonNumeric | Inject::MissingColumn | Inject::Negative | Inject::BeyondU32 | Inject::Blank | Inject::LeadingSpace | Inject::LeadingTab => {
             let (name, _, items) = &chroms[ck];
             let k = pick(case.item_sel, items.len());
             let it = &items[k];
@@ -263,6 +266,16 @@ fn build(case: &Case) -> Built {
                     }
                 }
                 Inject::Negative => format!("{}\t-{}\t{}\t{}", name, it.0 + 1, it.1, it.2),
+                Inject::BeyondU32 => {
+                    let w = 1u128 << 32;
+                    let (a, b) = (it.0 as u128, it.1 as u128);
+                    match case.item_sel % 4 {
+                        0 => format!("{}\t{}\t{}\t{}", name, a + w, b + w, it.2),
+                        1 => format!("{}\t{}\t{}\t{}", name, a, b + w, it.2),
+                        2 => format!("{}\t{}\t{}\t{}", name, a, b + 3 * w, it.2),
+                        _ => format!("{}\t{}\t{}\t{}", name, a, b + (1u128 << 64), it.2),
+                    }
+                }
                 Inject::LeadingSpace => format!(" {}\t{}\t{}\t{}", name, it.0, it.1, it.2),
                 Inject::LeadingTab => format!("\t{}\t{}\t{}\t{}", name, it.0, it.1, it.2),
                 _ => String::new(),
@@ -415,6 +428,7 @@ fn inject_for(bw: bool) -> BoxedStrategy<Inject> {
         Inject::NonNumeric,
         Inject::MissingColumn,
         Inject::Negative,
+        Inject::BeyondU32,
         Inject::Blank,
         Inject::Empty,
         Inject::LeadingSpace,
@@ -431,7 +445,7 @@ fn inject_for(bw: bool) -> BoxedStrategy<Inject> {
 }
 
 fn fix_opts(mut o: Opts, inject: Inject, text_pref: bool) -> Opts {
-    if matches!(inject, Inject::NonNumeric | Inject::MissingColumn | Inject::Negative | Inject::Blank | Inject::LeadingSpace | Inject::LeadingTab)
+    if matches!(inject, Inject::NonNumeric | Inject::MissingColumn | Inject::Negative | Inject::BeyondU32 | Inject::Blank | Inject::LeadingSpace | Inject::LeadingTab)
         && !matches!(o.source, SourceKind::SerialText | SourceKind::ParallelText)
     {
         o.source = if text_pref { SourceKind::SerialText } else { SourceKind::ParallelText };
@@ -481,7 +495,7 @@ impl Prop for C13 {
     const TERMINATION: bool = true;
     fn rule() -> String {
         "a valid multi-chromosome input with ONE violation injected at a generated position: class in {bigWig out-of-order, overlap (also eight shapes of the offender after a value (0,4): zero-length at its start / inside it, nested, identical, longer, ending inside), start>end, end>size (also an EMPTY last item wholly beyond the end); bigBed start order, start>=size; \
-         unknown chromosome; chromosome order with sorted input required; malformed line (non-numeric, missing column, negative, blank, a valid record behind a leading space / tab); empty input} x {in front of the first, after the first, middle, last item} x {first, middle, last chromosome} \
+         unknown chromosome; chromosome order with sorted input required; malformed line (non-numeric, missing column, negative, a coordinate of 2^32 or 2^64 and more that is valid modulo the integer width, blank, a valid record behind a leading space / tab); empty input} x {in front of the first, after the first, middle, last item} x {first, middle, last chromosome} \
          x {bigWig, bigBed} x {infallible iterator, fallible iterator, serial text, parallel text} x {single, two pass} (that grid once as fixed cases, plus generated bases/options); \
          oracle: the call returns Err (Ok is a violation), does not panic and returns within the deadline; valid degenerate inputs (only zero-length items, one item, items only at 0 / at the end, one chromosome all zero-length) must return, and if Ok the file must read back. \
          Text-source cases (all of the fixed grid, a quarter of the generated ones) also go through the real bedgraphtobigwig / bedtobigbed binaries with the matching flags (-t, --parallel, --single-pass, --uncompressed, --inmemory, --sorted, --block-size, --items-per-slot, --zooms/--nzooms): \
@@ -595,7 +609,7 @@ impl Prop for C13 {
             let classes: Vec<Inject> = if bw {
                 let mut c = vec![
                     Inject::BwOutOfOrder, Inject::BwOverlap, Inject::StartGtEnd, Inject::BwEndGtSize, Inject::BwEmptyBeyondEnd, Inject::UnknownChrom,
-                    Inject::ChromOrder, Inject::NonNumeric, Inject::MissingColumn, Inject::Negative, Inject::Blank, Inject::Empty,
+                    Inject::ChromOrder, Inject::NonNumeric, Inject::MissingColumn, Inject::Negative, Inject::BeyondU32, Inject::Blank, Inject::Empty,
                     Inject::LeadingSpace, Inject::LeadingTab,
                 ];
                 c.extend((0..OVERLAP_SHAPES.len() as u8).map(Inject::BwOverlapShape));
@@ -603,7 +617,7 @@ impl Prop for C13 {
             } else {
                 vec![
                     Inject::BbStartOrder, Inject::StartGtEnd, Inject::BbStartGeSize, Inject::UnknownChrom, Inject::ChromOrder,
-                    Inject::NonNumeric, Inject::MissingColumn, Inject::Negative, Inject::Blank, Inject::Empty,
+                    Inject::NonNumeric, Inject::MissingColumn, Inject::Negative, Inject::BeyondU32, Inject::Blank, Inject::Empty,
                     Inject::LeadingSpace, Inject::LeadingTab,
                 ]
             };
@@ -619,7 +633,7 @@ impl Prop for C13 {
                                 o.items_per_slot = 2;
                                 o.zoom = ZoomSpec::Manual(vec![16, 64]);
                                 let o = fix_opts(o, inject, src != SourceKind::Fallible);
-                                if matches!(inject, Inject::NonNumeric | Inject::MissingColumn | Inject::Negative | Inject::Blank | Inject::LeadingSpace | Inject::LeadingTab)
+                                if matches!(inject, Inject::NonNumeric | Inject::MissingColumn | Inject::Negative | Inject::BeyondU32 | Inject::Blank | Inject::LeadingSpace | Inject::LeadingTab)
                                     && matches!(src, SourceKind::Infallible | SourceKind::Fallible)
                                 {
                                     continue; // text classes only exist for text sources
